@@ -291,6 +291,9 @@ func (v *VStruct) exist(isValidTvKind bool, structName, fieldName, cusMsg string
 		if tv.Type() == timeReflectType {
 			return
 		}
+		if RemoveTypePtr(tv.Type()).Kind() != reflect.Struct { // 指向非结构体的指针(如: *int)没有嵌套内容可验证
+			return
+		}
 		v.validate(structName+"."+fieldName, tv, false)
 	case reflect.Slice, reflect.Array:
 		for i := 0; i < tv.Len(); i++ {
